@@ -186,27 +186,29 @@ func (db *DB) Delete(key []byte) {
 }
 
 func (db *DB) Get(key []byte) (kv.Entry, error) {
-	sstables := db.currentSSTables()
-	verifhook.Point("dkv.read.between_snapshots", db)
-
 	// First try to get from the memtables
 	v, err := db.mtables.Get(key)
 	if err == nil {
 		return v, nil
 	}
+	verifhook.Point("dkv.read.between_snapshots", db)
 
-	// Then try the SSTables
+	// Then try the SSTables. The level list must be captured after the memtables
+	// were consulted: a flush moves data from the memtables into the level
+	// list, so the opposite order can miss an entry that moved in between.
 	if err == kv.ErrNotFound {
-		return sstables.Get(key)
+		return db.currentSSTables().Get(key)
 	}
 
 	return nil, err
 }
 
 func (db *DB) ScanPrefix(prefix []byte, errOut *error) iter.Seq[kv.Entry] {
-	sstables := db.currentSSTables()
+	// Capture the memtables before the level list (see Get).
+	mtablesIter := db.mtables.ScanPrefix(prefix, errOut)
 	verifhook.Point("dkv.read.between_snapshots", db)
-	iters := []iter.Seq[kv.Entry]{db.mtables.ScanPrefix(prefix, errOut), sstables.ScanPrefix(prefix, errOut)}
+	sstables := db.currentSSTables()
+	iters := []iter.Seq[kv.Entry]{mtablesIter, sstables.ScanPrefix(prefix, errOut)}
 	// Delete markers from the memtables win the merge against older versions and
 	// are dropped only afterwards.
 	return func(yield func(kv.Entry) bool) {
